@@ -1,5 +1,6 @@
 import GopatchModel.Spec.Sound
 import GopatchModel.Spec.Traverse
+import GopatchModel.Spec.All
 namespace Gopatch.C02
 open Gopatch
 
@@ -89,5 +90,32 @@ theorem attempts_independent (c : Change) (d : Data) (id : Nat) (fs : List V) :
 trying `a` followed by the result of trying `b` -/
 theorem attempts_compose (nm : V → Option Data) (a b : List V) :
     (a ++ b).filterMap nm = a.filterMap nm ++ b.filterMap nm := List.filterMap_append
+
+/-- **Identical code at every occurrence is accepted.** "Stand for syntactically identical code" is stated
+without an order: every occurrence matches one piece of code `c`.  The matcher compares later occurrences
+with the *first* one instead; on well-typed syntax trees in parser normal form the two agree, because
+"matches the same code" is Euclidean there. -/
+theorem same_code_is_euclidean (sc : Schema) (c a b : V)
+    (wc : wtv sc c = true) (wa : wtv sc a = true) (wb : wtv sc b = true) (na : nf a = true) (nb : nf b = true)
+    (ta : c.tag = a.tag) (tb : c.tag = b.tag) (ha : eqvM c a = true) (hb : eqvM c b = true) : eqvM a b = true :=
+  eqvM_euclid sc c a b wc wa wb na nb ta tb ha hb
+
+/-- hence a later occurrence that stands for the same code as the earlier ones is never rejected, and the
+bindings stay consistent with that code -/
+theorem later_occurrence_accepted (sc : Schema) (σ : Subst) (hσ : GoodSubst sc σ) (k : Kind) (name : String) (g c : V)
+    (d : Data) (hk : kindOK k g = true) (hn : g.isNil = false) (hl : σ.lookup name = some c) (he : eqvM c g = true)
+    (wg : wtv sc g = true) (ng : nf g = true) (hc : Compat sc d σ) :
+    ∃ d', matchMetavar k name g d = some d' ∧ Compat sc d' σ :=
+  matchMetavar_complete sc σ hσ k name g c d hk hn hl he wg ng hc
+
+/-- the hypotheses are satisfiable: a literal under the schema of `ast.BasicLit` is code a metavariable may stand for -/
+def sc0 : Schema := { fields := fun t => if t == "ast.BasicLit" then some [.pos, .int, .str] else none, elem := fun _ => .str }
+example : GoodV sc0 (.ptr "ast.BasicLit" 7 [.pos true 3, .int 5, .str "1"]) := by
+  refine ⟨?_, ?_, ?_⟩ <;> decide +kernel
+
+/-- without the typing hypothesis the Euclidean property fails (values no Go program can produce): a comment
+group matches anything, two different strings do not match each other -/
+example : eqvM (.ptr "ast.CommentGroup" 0 []) (.str "a") = true ∧ eqvM (.ptr "ast.CommentGroup" 0 []) (.str "b") = true ∧
+    eqvM (.str "a") (.str "b") = false := by decide +kernel
 
 end Gopatch.C02
